@@ -21,3 +21,10 @@ pub(crate) fn s_mutex_lock(_t: &parking_lot::RawMutex, _timeout: Option<std::tim
 pub(crate) fn s_mutex_unlock(_t: &parking_lot::RawMutex, _f: bool) {
     kani::assume(false);
 }
+
+/// `Arc::drop_slow` (runs the pointee's drop glue when the last strong reference goes) is cut to a no-op:
+/// Record's drop glue (Bytes vtable dispatch, recursive successor chain) is what makes harnesses over
+/// Arc<Record> explode, although the harnesses never let a count reach zero. Effect of the stub: a
+/// value whose last Arc is dropped is leaked instead of freed – invisible to the properties checked.
+pub(crate) fn noop_drop_slow<T: ?Sized, A: std::alloc::Allocator>(_this: &mut std::sync::Arc<T, A>) {}
+pub(crate) fn stub_eprint(_: std::fmt::Arguments<'_>) {}
